@@ -266,13 +266,18 @@ func enumerate(x string, perSite int) []fault {
 			continue
 		}
 		dupCount[what]++
-		var nl []string
-		if what == "local" {
-			nl = append(append(append([]string{}, lines[:li+1]...), line), lines[li+1:]...)
-		} else {
-			nl = append(append([]string{}, lines...), line)
+		// the second definition is either a verbatim copy or a different definition of the same name
+		for _, v := range variants(what, line) {
+			var nl []string
+			if what == "local" {
+				nl = append(append(append([]string{}, lines[:li+1]...), v.line), lines[li+1:]...)
+			} else if v.before {
+				nl = append(append(append([]string{}, lines[:li]...), v.line), lines[li:]...)
+			} else {
+				nl = append(append([]string{}, lines...), v.line)
+			}
+			out = append(out, fault{kind: "duplicate:" + what + v.tag, text: strings.Join(nl, "\n")})
 		}
-		out = append(out, fault{kind: "duplicate:" + what, text: strings.Join(nl, "\n")})
 	}
 	return out
 }
@@ -471,4 +476,56 @@ func sortStrings(a []string) {
 			a[j], a[j-1] = a[j-1], a[j]
 		}
 	}
+}
+
+type variant struct {
+	tag    string
+	line   string
+	before bool // place the extra definition before the original instead of at the end
+}
+
+// variants returns second definitions of the name defined by line: a verbatim copy and re-definitions that
+// differ from the first (other body, opaque, declaration instead of definition, other kind ...).
+func variants(what, line string) []variant {
+	out := []variant{{"", line, false}}
+	name := line
+	if i := strings.Index(line, " = "); i >= 0 {
+		name = strings.TrimSpace(line[:i])
+	}
+	switch what {
+	case "type":
+		out = append(out, variant{"/then-opaque", name + " = type opaque", false}, variant{"/other-body", name + " = type { i8, i8 }", false}, variant{"/other-body-first", name + " = type { i8 }", true})
+	case "comdat":
+		kind := "any"
+		if strings.HasSuffix(line, "any") {
+			kind = "largest"
+		}
+		out = append(out, variant{"/other-kind", name + " = comdat " + kind, false})
+	case "global":
+		out = append(out, variant{"/other-definition", name + " = global i8 7", false}, variant{"/declaration", name + " = external global i8", false}, variant{"/as-function", "declare void " + name + "()", false})
+	case "alias":
+		out = append(out, variant{"/as-global", name + " = global i8 7", false})
+	case "function-declaration":
+		if i := strings.Index(line, "@"); i >= 0 {
+			j := i + 1
+			if j < len(line) && line[j] == '"' {
+				j++
+				for j < len(line) && line[j] != '"' {
+					j++
+				}
+				j++
+			} else {
+				for j < len(line) && isIdentChar(line[j]) {
+					j++
+				}
+			}
+			fn := line[i:j]
+			out = append(out, variant{"/as-definition", "define void " + fn + "() {\n  ret void\n}", false}, variant{"/as-global", fn + " = global i8 7", false})
+		}
+	case "metadata-id":
+		out = append(out, variant{"/other-content", name + " = !{i32 12345}", false})
+	case "local":
+		out = append(out, variant{"/other-instruction", "  " + name + " = add i32 1, 2", false})
+	}
+	return out
 }
